@@ -522,7 +522,15 @@ class FInterp:
         rng = range(L - 1, -1, -1) if p["reverse"] else range(L)
         cc = [self.lit(c) for c in cj.consts]
         for t in rng:
-            out = self.eval(cj.jaxpr, cc, list(consts) + carry + [x[t] for x in xs])
+            xs_t = []
+            for x in xs:
+                v = x[t]
+                if not (isinstance(v, np.ndarray) and v.dtype == object):
+                    o = obj(())
+                    o[()] = v
+                    v = o
+                xs_t.append(v)
+            out = self.eval(cj.jaxpr, cc, list(consts) + carry + xs_t)
             carry = out[:ncar]
             y = out[ncar:]
             if ys is None:
